@@ -679,13 +679,13 @@ PROPS = {
                           "Logging.restrict (horn(original)) (Logging.needs ..) vs the real answers",
     },
     'C09': {
-        'extra_props': ['C05fp', 'C05mixed'],
+        'extra_props': ['C05fp', 'C05mixed', 'C09trunc'],
         'level': 'other',
-        'rule': "MODEL lines: abstract instances are READ OFF THE REAL CODE (for every goal reachable from the root goals the harness asks chalk for the clauses solve_from_clauses would try - custom clauses, program_clauses_that_could_match, program_clauses_for_env, could_match filter - instantiates each against the goal with the real InferenceTable as Fulfill::new_with_clause does and canonicalizes the conditions as Fulfill::prove does; programs outside the abstraction of FixedPoint.lean are refused and counted) for three families: ground dependency graphs of <= 12 structs over an inductive and a #[coinductive] trait (chains with/without base case, diamonds, one cycle with/without base case entered through a tail, nested SCCs, two SCCs sharing nodes, random graphs; all-inductive / all-coinductive / mixed kinds; several impls per type), goals with unknowns (the F10 family: blanket impls `impl<X> Qi for X where X: Qj` + per trait no or >= 2 facts), and ProgGen programs with closed atomic goals whose goal closure is finite (<= 48 goals). One request line = one SCRIPT of calls on ONE real RecursiveSolver (cache on or off, overflow depth): per call the outcome kind (unique/none/ambig/panic:<site>), the hook's work counter and the hook-dumped cache must equal the model's, exactly. C09 scripts: histories of plain solves with cache on/off plus overflow depths 1,2,3,5 (overflow panics compared). ORACLE (both solvers, no model line): corpus/C09 first (F12, F18, F20 inputs, growing types `impl<T> Foo for T where Vec<T>: Foo`, polymorphic recursion `impl<T> Foo for Vec<T> where Vec<Vec<T>>: Foo`; every limit combination), then generated subjects (ground graphs, unknown-family, ProgGen with growing/polymorphic-recursive impls and 1/3 coinductive traits; 5 goals each: 2 shaped after impl headers with unknowns, 1 free-form with unknowns, 2 closed incl. not/forall/if) x 4 configurations drawn per subject: SLG default, SLG max_size in {3,4,6,10}, recursive default, recursive max_size in {4,8,15,30} x overflow depth in {20,50,100} x cache on/off. Every solve runs in a child process (sharded harness) under a work budget (50000 steps recursive, 6000 SLG) installed in BOTH engines' cfg(chalk_verif) counters (solve_goal entries + fixed-point rounds; ensure_root_answer iterations) and a 240 s per-call watchdog that aborts the process (the parent reports the case in flight). Non-trivial = instance with a cycle or an outcome other than unique; distinct = distinct request lines",
+        'rule': "MODEL lines: abstract instances are READ OFF THE REAL CODE (for every goal reachable from the root goals the harness asks chalk for the clauses solve_from_clauses would try - custom clauses, program_clauses_that_could_match, program_clauses_for_env, could_match filter - instantiates each against the goal with the real InferenceTable as Fulfill::new_with_clause does and canonicalizes the conditions as Fulfill::prove does; programs outside the abstraction of FixedPoint.lean are refused and counted) for three families: ground dependency graphs of <= 12 structs over an inductive and a #[coinductive] trait (chains with/without base case, diamonds, one cycle with/without base case entered through a tail, nested SCCs, two SCCs sharing nodes, random graphs; all-inductive / all-coinductive / mixed kinds; several impls per type), goals with unknowns (the F10 family: blanket impls `impl<X> Qi for X where X: Qj` + per trait no or >= 2 facts), and ProgGen programs with closed atomic goals whose goal closure is finite (<= 48 goals). One request line = one SCRIPT of calls on ONE real RecursiveSolver (cache on or off, overflow depth): per call the outcome kind (unique/none/ambig/panic:<site>), the hook's work counter and the hook-dumped cache must equal the model's, exactly. C09 scripts: histories of plain solves with cache on/off plus overflow depths 1,2,3,5 (overflow panics compared). ORACLE (both solvers, no model line): corpus/C09 first (F12, F18, F20 inputs, growing types `impl<T> Foo for T where Vec<T>: Foo`, polymorphic recursion `impl<T> Foo for Vec<T> where Vec<Vec<T>>: Foo`; every limit combination), then generated subjects (ground graphs, unknown-family, ProgGen with growing/polymorphic-recursive impls and 1/3 coinductive traits; 5 goals each: 2 shaped after impl headers with unknowns, 1 free-form with unknowns, 2 closed incl. not/forall/if) x 4 configurations drawn per subject: SLG default, SLG max_size in {3,4,6,10}, recursive default, recursive max_size in {4,8,15,30} x overflow depth in {20,50,100} x cache on/off. Every solve runs in a child process (sharded harness) under a work budget (50000 steps recursive, 6000 SLG) installed in BOTH engines' cfg(chalk_verif) counters (solve_goal entries + fixed-point rounds; ensure_root_answer iterations) and a 240 s per-call watchdog that aborts the process (the parent reports the case in flight). Non-trivial = instance with a cycle or an outcome other than unique; distinct = distinct request lines. SIZE-LIMIT lines (harness/src/ops/trunc.rs, run once after the fp cases, spread over the shards): 6000 (thorough 200000) generated values - a type, a generic argument, a substitution, a Vec of types, a where clause, a domain goal; depth 1-5, constants with arbitrary types - and a limit in 0..40: the REAL chalk_solve::solve::truncate::needs_truncation on a fresh InferenceTable (type inference variables created, unbound) is asked for max_size = 0,1,2,.. to recover visitor.max_size exactly; the line (ok <max_size> <needs>) must equal the stateful Lean model Truncate.visitValue; independently the largest outermost type of the SERIALISED term is measured by a plain walk (classifier truncate_vs_node_count), and the scan checks monotonicity in the limit (truncate_not_monotone)",
         'technique': "Lean 4 theorems about an executable model of the recursive solver's fixed-point/caching framework (bounding mechanisms: depth, loop exit, explicit work bound) + exact differential correspondence of outcome, work counter and cache with the real RecursiveSolver + deterministic work budgets on both real engines in child processes",
-        'claim': "PARTIAL by nature (a theorem cannot exhibit a hang of the real schedulers). Proved for the model, all instances: reached_fixed_point_ambig_stops (an ambiguous answer ends the loop of solve_new_subgoal in the same round, whatever fuel is left), fixedPoint_terminates (on the value domain noSolution < unique < ambig a MONOTONE iteration satisfies reached_fixed_point within 3 rounds, 2 from the initial values; fixedPoint_three_rounds_tight), termination_needs_monotone (a non-monotone iteration oscillates for ever: this is F18's negative cycle), work_bounded / call_work_bounded (explicit closed bound workBound(rounds, A, S, depth) on solve_goal entries + loop rounds of one call for every instance, state, oracle and outcome: the stack depth bound of Stack::push makes the nesting finite, each alternative solves each sub-goal at most twice), workBound_attained (the exponential shape is real without the cache: 30, 62, 126 steps for chains of 3, 4, 5 vs 11, 14, 17 with it = F20), acyclic_call_terminates (the property's sentence for ACYCLIC instances of any size: every call without work budget on a solver with any history - answers, interruptions, panics - cache on or off, returns a value when the goal's rank fits under the overflow depth; no assert of the framework fires, every loop runs one round). The hypothesis 'finite height' is what fails for the real substitution-carrying Unique values (F12, remark in Props/C09.lean). OBSERVED on the real code: every solve of every generated subject under every drawn limit returned within the work budget or ended in the permitted recursive 'overflow depth reached' panic, except the known findings. An overflow panic is accepted because on a fresh solver the stack holds exactly the goals of the current search path, so Stack::push panics iff the search is that deep; it is cross-checked by re-running with 8x the depth (must overflow again or finish).",
+        'claim': "PARTIAL by nature (a theorem cannot exhibit a hang of the real schedulers). Proved for the model, all instances: reached_fixed_point_ambig_stops (an ambiguous answer ends the loop of solve_new_subgoal in the same round, whatever fuel is left), fixedPoint_terminates (on the value domain noSolution < unique < ambig a MONOTONE iteration satisfies reached_fixed_point within 3 rounds, 2 from the initial values; fixedPoint_three_rounds_tight), termination_needs_monotone (a non-monotone iteration oscillates for ever: this is F18's negative cycle), work_bounded / call_work_bounded (explicit closed bound workBound(rounds, A, S, depth) on solve_goal entries + loop rounds of one call for every instance, state, oracle and outcome: the stack depth bound of Stack::push makes the nesting finite, each alternative solves each sub-goal at most twice), workBound_attained (the exponential shape is real without the cache: 30, 62, 126 steps for chains of 3, 4, 5 vs 11, 14, 17 with it = F20), acyclic_call_terminates (the property's sentence for ACYCLIC instances of any size: every call without work budget on a solver with any history - answers, interruptions, panics - cache on or off, returns a value when the goal's rank fits under the overflow depth; no assert of the framework fires, every loop runs one round). The hypothesis 'finite height' is what fails for the real substitution-carrying Unique values (F12, remark in Props/C09.lean). OBSERVED on the real code: every solve of every generated subject under every drawn limit returned within the work budget or ended in the permitted recursive 'overflow depth reached' panic, except the known findings. An overflow panic is accepted because on a fresh solver the stack holds exactly the goals of the current search path, so Stack::push panics iff the search is that deep; it is cross-checked by re-running with 8x the depth (must overflow again or finish). SIZE LIMIT (Props/C09trunc.lean, exact stateful model of TySizeVisitor, all terms): visitTy_invariant (from any state with size <= max_size a visit adds the type's node count to size, records it in max_size, keeps depth, and resets size to 0 exactly at depth 0), visit_eq_spec (run from TySizeVisitor::new the visitor ends with max_size = the node count of the LARGEST outermost type of the value: maximum, not sum), needsTruncation_iff / _iff_exists, needsTruncation_mono (monotone in the limit), needsTruncation_args_closed and needsTruncation_subterm_closed (a value under the limit has only type arguments under the limit), tyNodes_pos (limit 0 rejects every type), tyNodes_app (1 + sum over type arguments; lifetimes and constants count 0), const_never_needs_truncation / tyNodes_array (QUIRK mirrored from the code: the type of a constant is not visited).",
         'note': "Findings: F12 (recursive solver, coinductive goal with an unknown: answer grows for ever, native stack overflow) reproduced on the unchanged tree (budget / abort in the child process), REPAIRED in /repo (commit d4bc291: max_size test on the iteration's answer), regression input in corpus/C09. OPEN: F18 recursive_negative_cycle_diverges (lead's finding: cycle through negation never reaches a fixed point; SLG panics 'negative cycle was detected' = F18-slg), F20 recursive_nocache_exponential_reprove (cache disabled: work doubles per level of a growing goal, 2^(max_size+1)), F24 slg_work_budget_exceeded (SLG enumeration exponential in the number of overlapping copies of an impl on an unbounded answer set), and in C10: F23 slg_runaway_after_history. Budgets: 50000 steps recursive, 6000 (much heavier) steps SLG, 240 s per call as last resort. NOW THEOREMS for ground instances (Props/C05fp.lean, Props/C05mixed.lean, registered here too): on every finite ground instance of one polarity, or mixing polarities without a mixed cycle - any cycle structure - solve_root_goal RETURNS: no assert of the framework fires, the stack does not overflow for overflowDepth >= the number of goals, and TWO rounds of the loop of solve_new_subgoal suffice (both bounds tight). NOT YET THEOREMS (differential only): instances with unknowns (the value domain is then not of finite height: F12, F33), mixed cycles, anything about the SLG engine's termination (F32 shows it does not hold). Trusted: Lean kernel, model fidelity (differential, exact incl. work counter), the hooks' counters, harness.",
-        'correspondence': 'FixedPoint.{solveRootGoal, solveGoal, solveNewSubgoal, solveIteration, solveFromClauses, fulfillSolve} + hook tick (lean/ChalkModel/FixedPoint.lean) vs chalk_recursive::RecursiveSolver::solve_limited on instances read off program_clauses_that_could_match / InferenceTable (outcome kind, work counter, cache entries)',
+        'correspondence': 'FixedPoint.{solveRootGoal, solveGoal, solveNewSubgoal, solveIteration, solveFromClauses, fulfillSolve} + hook tick (lean/ChalkModel/FixedPoint.lean) vs chalk_recursive::RecursiveSolver::solve_limited on instances read off program_clauses_that_could_match / InferenceTable (outcome kind, work counter, cache entries); Truncate.{visitValue, needsTruncation} (lean/ChalkModel/Truncate.lean) vs chalk_solve::solve::truncate::needs_truncation on an InferenceTable without bound variables (ty-size / garg-size / args-size / tys-size / wc-size / goal-size lines)',
         'explanation': "bounding mechanisms proved on an exact model; the real engines' termination observed through deterministic work counters in child processes",
     },
     'C10': {
